@@ -4,6 +4,8 @@
 -/
 import IgrisModel.C16.WrapNLemmas
 import IgrisModel.C16.Delegate
+import IgrisModel.C16.Guard
+import IgrisModel.C16.More
 namespace Igris.C16
 variable {w : Nat}
 
@@ -42,5 +44,48 @@ theorem fires_toN (w : Nat) (i : Nat) (fss : List (List Fire)) :
     | cons f fs ih2 =>
       simp only [List.map_cons, List.filter_cons, Fire.toN]
       split <;> simp_all
+
+/-! ### the re-entrancy guard -/
+
+theorem runActsX_guard (k : Nat) (m : Mgr) (acts : List ActG) :
+    runActsX execReentered k m (acts.map ActG.toX) = (runCb m (acts.filterMap ActG.base?), [], .done) := by
+  induction acts generalizing m k with
+  | nil => rfl
+  | cons a as ih =>
+    cases a with
+    | base b =>
+      cases b with
+      | unplan j => simp only [List.map_cons, ActG.toX, ActX.ofAction, runActsX, applyX, List.filterMap_cons, ActG.base?]; rw [ih]; rfl
+      | plan j s iv => simp only [List.map_cons, ActG.toX, ActX.ofAction, runActsX, applyX, List.filterMap_cons, ActG.base?]; rw [ih]; rfl
+    | exec now =>
+      simp only [List.map_cons, ActG.toX, runActsX, execReentered, List.filterMap_cons, ActG.base?, if_true,
+        List.length_nil, Nat.add_zero, List.nil_append]
+      rw [ih]
+
+theorem not_destroy_mem_guard (i : Nat) (acts : List ActG) : ActX.destroy i ∉ acts.map ActG.toX := by
+  intro h
+  obtain ⟨a, _, e⟩ := List.mem_map.mp h
+  cases a with
+  | base b => cases b <;> simp [ActG.toX, ActX.ofAction] at e
+  | exec now => simp [ActG.toX] at e
+
+theorem execG_guard_aux (cb : Nat → Nat → List ActG) (fuel : Nat) (now : Int) (k : Nat) (m : Mgr) :
+    execG (fun k i => (cb k i).map ActG.toX) fuel now k m =
+      ((execLoop (fun k i => (cb k i).filterMap ActG.base?) now fuel k m).1,
+       (execLoop (fun k i => (cb k i).filterMap ActG.base?) now fuel k m).2.1,
+       statOfBool (execLoop (fun k i => (cb k i).filterMap ActG.base?) now fuel k m).2.2) := by
+  induction fuel generalizing k m with
+  | zero =>
+    simp only [execG, execLoop]
+    cases (m.headDue now) <;> rfl
+  | succ n ih =>
+    unfold execG execLoop
+    cases hd : m.headDue now with
+    | none => rfl
+    | some i =>
+      simp only [runActsX_guard, not_destroy_mem_guard, if_true, if_false, List.length_nil, Nat.add_zero,
+        List.nil_append]
+      rw [ih]
+      rfl
 
 end Igris.C16
